@@ -1,9 +1,11 @@
 package props
 
 import (
+	"fmt"
 	"go/ast"
 	"go/token"
 	"go/types"
+	"strings"
 
 	"goblcheck/core"
 )
@@ -185,4 +187,259 @@ func FindAccums(p *core.Program, fd *core.FuncDecl) []Accum {
 		return true
 	})
 	return out
+}
+
+// zeroSeed decides whether an expression denotes a currency zero (an amount
+// whose precision is exactly the currency's decimals).
+type zeroSeed struct {
+	p    *core.Program
+	memo map[types.Object]int // 1 yes, 2 no, 3 in progress
+}
+
+func (z *zeroSeed) expr(fd *core.FuncDecl, e ast.Expr, depth int) bool {
+	if depth > 6 {
+		return false
+	}
+	info := fd.Pkg.TypesInfo
+	e = ast.Unparen(e)
+	switch x := e.(type) {
+	case *ast.CallExpr:
+		if fn := core.Callee(info, x); fn != nil && core.IsFunc(fn, core.ModPath+"/currency", "Def", "Zero") {
+			return true
+		}
+	case *ast.UnaryExpr:
+		if x.Op == token.AND {
+			return z.expr(fd, x.X, depth+1)
+		}
+	case *ast.StarExpr:
+		return z.expr(fd, x.X, depth+1)
+	case *ast.Ident:
+		v := core.VarOf(info, x)
+		if v == nil {
+			return false
+		}
+		switch z.memo[v] {
+		case 1:
+			return true
+		case 2, 3:
+			return false
+		}
+		z.memo[v] = 3
+		res := false
+		if i, isParam := paramIndex(fd.Obj, v); isParam {
+			// every module call site passes a zero seed
+			res = true
+			n := 0
+			for _, cf := range z.p.AllFuncs() {
+				cinfo := cf.Pkg.TypesInfo
+				for _, call := range core.CallsTo(cinfo, cf.Decl.Body, func(f *types.Func) bool { return f.Origin() == fd.Obj }) {
+					n++
+					var a ast.Expr
+					if i == -1 {
+						a = core.RecvExpr(call)
+					} else if i < len(call.Args) {
+						a = call.Args[i]
+					}
+					if a == nil || !z.expr(cf, a, depth+1) {
+						res = false
+					}
+				}
+			}
+			if n == 0 {
+				res = false
+			}
+		} else {
+			ld := core.NewLocalDefs(info, fd.Decl.Body)
+			defs := ld.All(v)
+			if len(defs) > 0 && defs[0].RHS != nil {
+				res = z.expr(fd, defs[0].RHS, depth+1) // the seed is the first definition
+			}
+		}
+		if res {
+			z.memo[v] = 1
+		} else {
+			z.memo[v] = 2
+		}
+		return res
+	case *ast.SelectorExpr:
+		f := core.FieldOf(info, x)
+		if f == nil {
+			return false
+		}
+		// the seed that reaches here: the nearest earlier assignment to the same location in this function
+		var seed ast.Expr
+		var seedPos token.Pos
+		ast.Inspect(fd.Decl.Body, func(n ast.Node) bool {
+			as, ok := n.(*ast.AssignStmt)
+			if !ok || as.Pos() >= x.Pos() || len(as.Lhs) != len(as.Rhs) {
+				return true
+			}
+			for i, l := range as.Lhs {
+				if sameLoc(info, l, x) {
+					r := ast.Unparen(as.Rhs[i])
+					// skip the accumulation steps themselves (L = L.Add(..), L = match(L, ..))
+					selfRef := false
+					ast.Inspect(r, func(m ast.Node) bool {
+						if e, ok := m.(ast.Expr); ok && sameLoc(info, e, x) {
+							selfRef = true
+						}
+						return true
+					})
+					if !selfRef && as.Pos() > seedPos {
+						seed, seedPos = r, as.Pos()
+					}
+				}
+			}
+			return true
+		})
+		if seed != nil {
+			return z.expr(fd, seed, depth+1)
+		}
+		return z.field(f, depth+1)
+	}
+	return false
+}
+
+// field: some assignment to this struct field in the module stores a zero seed.
+func (z *zeroSeed) field(f *types.Var, depth int) bool {
+	switch z.memo[f] {
+	case 1:
+		return true
+	case 2, 3:
+		return false
+	}
+	z.memo[f] = 3
+	res := false
+	for _, fd := range z.p.AllFuncs() {
+		if fd.Obj.Pkg() != f.Pkg() {
+			continue
+		}
+		info := fd.Pkg.TypesInfo
+		ast.Inspect(fd.Decl.Body, func(n ast.Node) bool {
+			switch x := n.(type) {
+			case *ast.AssignStmt:
+				for i, l := range x.Lhs {
+					if core.FieldOf(info, l) == f && i < len(x.Rhs) && len(x.Lhs) == len(x.Rhs) {
+						if z.expr(fd, x.Rhs[i], depth+1) {
+							res = true
+						}
+					}
+				}
+			case *ast.KeyValueExpr:
+				if id, ok := x.Key.(*ast.Ident); ok && info.Uses[id] == types.Object(f) {
+					if z.expr(fd, x.Value, depth+1) {
+						res = true
+					}
+				}
+			}
+			return true
+		})
+	}
+	if res {
+		z.memo[f] = 1
+	} else {
+		z.memo[f] = 2
+	}
+	return res
+}
+
+// accumulatorRule: every self-accumulation whose accumulator is seeded with a
+// currency zero raises its precision to the addend's first; otherwise each
+// addend is rounded to the currency's decimals when it is added, which moves
+// the rounding point and makes the sum depend on nothing but luck.
+func accumulatorRule(c *core.Ctx, rule string, pkgs []string) {
+	p := c.P
+	z := &zeroSeed{p: p, memo: map[types.Object]int{}}
+	n := 0
+	for _, rel := range pkgs {
+		pk := p.Pkg(rel)
+		if pk == nil {
+			c.Ob(rule, "UNRESOLVED:"+rel, token.NoPos, false, "package not loaded")
+			continue
+		}
+		for _, fd := range p.Funcs(pk) {
+			info := fd.Pkg.TypesInfo
+			accs := FindAccums(p, fd)
+			for i, a := range accs {
+				// seed of the accumulator
+				dest := ast.Unparen(a.Dest)
+				if st, ok := dest.(*ast.StarExpr); ok {
+					dest = st.X
+				}
+				seeded := z.expr(fd, dest, 0)
+				if !seeded {
+					continue
+				}
+				n++
+				key := fmt.Sprintf("%s#%s%d:%s", fd.Name(), strings.ToLower(a.Op), i+1, types.ExprString(a.Dest))
+				ok := a.Matched
+				how := a.How
+				if !ok {
+					// idiom: matched earlier in the same iteration against a sibling of the addend (same root object)
+					if why := matchedAgainstSibling(info, fd, a); why != "" {
+						ok, how = true, why
+					}
+				}
+				if ok {
+					c.Ob(rule, key, a.Assign.Pos(), true, "")
+					c.Note("%s: %s", key, how)
+					continue
+				}
+				c.Ob(rule, key, a.Assign.Pos(), false,
+					fmt.Sprintf("%s accumulates %s into a sum seeded with the currency's zero without first raising the sum's precision to the addend's (MatchPrecision): every addend is rounded to the currency's decimals when added — a rounding point moved into the middle of the calculation, and a result that depends on row order", fd.Name(), types.ExprString(a.Addend)))
+			}
+		}
+	}
+	c.Extra(rule+"_zero_seeded_accumulations", n)
+}
+
+// matchedAgainstSibling: an earlier statement of the same loop iteration
+// matched this accumulator against another field of the same object the
+// addend belongs to (e.g. the category amount before its surcharge).
+func matchedAgainstSibling(info *types.Info, fd *core.FuncDecl, a Accum) string {
+	addRoot := core.RootVar(info, a.Addend)
+	if addRoot == nil {
+		return ""
+	}
+	// the enclosing loop body
+	var loopBody *ast.BlockStmt
+	ast.Inspect(fd.Decl.Body, func(n ast.Node) bool {
+		switch l := n.(type) {
+		case *ast.RangeStmt:
+			if l.Body.Pos() <= a.Assign.Pos() && a.Assign.End() <= l.Body.End() {
+				loopBody = l.Body
+			}
+		case *ast.ForStmt:
+			if l.Body.Pos() <= a.Assign.Pos() && a.Assign.End() <= l.Body.End() {
+				loopBody = l.Body
+			}
+		}
+		return true
+	})
+	if loopBody == nil {
+		return ""
+	}
+	res := ""
+	ast.Inspect(loopBody, func(n ast.Node) bool {
+		as, ok := n.(*ast.AssignStmt)
+		if !ok || as.Pos() >= a.Assign.Pos() || len(as.Lhs) != 1 || len(as.Rhs) != 1 || !sameLoc(info, as.Lhs[0], a.Dest) {
+			return true
+		}
+		call, ok := ast.Unparen(as.Rhs[0]).(*ast.CallExpr)
+		if !ok {
+			return true
+		}
+		fn := core.Callee(info, call)
+		var other ast.Expr
+		if isAmountMethod(fn, "MatchPrecision") && len(call.Args) == 1 {
+			other = call.Args[0]
+		} else if fn != nil && len(call.Args) == 3 {
+			other = call.Args[2]
+		}
+		if other != nil && core.RootVar(info, other) == addRoot {
+			res = "matched earlier in the same iteration against " + types.ExprString(other) + " of the same object"
+		}
+		return true
+	})
+	return res
 }
